@@ -321,7 +321,18 @@ def lz_tie(ctx, cd):
             lits, qs, out = gen_parse(rng, rng.choice([127, 128, 129, rng.randint(130, 1500)]), 6, 30)
         else:
             lits, qs, out = gen_parse(rng, rng.randint(1, 12), 9000, 20000)
-        if len(out) > 120000 or len(lits) > 100000:
+        if i in (1, 2, 3) and (not ctx.quick or i == 2):
+            # Number_of_Sequences at the 3-byte threshold (LONGNBSEQ = 0x7F00 = 32512)
+            nq = 32510 + i
+            o = bytearray(rng.randbytes(8))
+            lits, qs = bytes(o), []
+            for j in range(nq):
+                off = rng.randint(1, min(len(o), 16))
+                for _ in range(3):
+                    o.append(o[-off])
+                qs.append((8 if j == 0 else 0, 3, off + 3))
+            out = bytes(o)
+        if len(out) > 126000 or len(lits) > 100000:
             continue
         wlog = rng.choice([17, 18, 20, 23, 27])
         cs, ck = rng.getrandbits(1), rng.getrandbits(1)
